@@ -111,8 +111,10 @@ Fixpoint row_chk (m : wmap) (q : state) (atoms : list atom) (succ : list positiv
   | _, _ => false
   end.
 
+(* (the classes of a state need no check: derivatives introduce no new class — [td_classes] — and the
+   classes of the initial state are checked once, in [decide_empty]) *)
 Definition row_ok (CL : list cset) (atoms : list atom) (m : wmap) (q : state) (succ : list positive) : bool :=
-  negb (accepting q) && classes_in CL (snd q) && row_chk m q atoms succ [].
+  negb (accepting q) && row_chk m q atoms succ [].
 
 Definition closed_cert (CL : list cset) (atoms : list atom) (W : list state) (tr : list (list positive)) : bool :=
   let m := build_map W 1%positive (PositiveMap.empty state) in
@@ -221,7 +223,7 @@ Definition explore (fuel : nat) (atoms : list atom) (t0 : top) : xres :=
 Definition decide_empty (CL : list cset) (atoms : list atom) (fuel : nat) (t0 : top) : bool :=
   match explore fuel atoms t0 with
   | XClosed W tr =>
-      closed_cert CL atoms W tr &&
+      closed_cert CL atoms W tr && classes_in CL t0 &&
       match W with q0 :: _ => state_eqb q0 (true, t0) | [] => false end
   | _ => false
   end.
